@@ -645,7 +645,11 @@ class C19(Spec):
                                     ['quiesce', None, [], {'T': 20}]]}
             return {'family': 'flt', 'cfg': cfg.to_json(), 'prog': prog, 'seed': seed, 'flt_window': R}
         cfg = sample_cfg(rng, tier, m_min=2)
-        prog = iofam.gen_window(rng, cfg, tier)
+        if seed % 6 == 4:
+            # secure group elements (S_n, QR, Schnorr, class groups) output to a subset
+            prog = iofam.gen_window_grp(rng, cfg)
+        else:
+            prog = iofam.gen_window(rng, cfg, tier)
         return {'family': 'io', 'cfg': cfg.to_json(), 'prog': prog, 'seed': seed}
 
     def monitors(self, case):
